@@ -490,7 +490,7 @@ def events_for(prop, case, res, D, ctr):
             lv = R[name].get("leaves")
             if lv is not None:
                 # the comment line the renderer puts between continued conditional lines is not part of P
-                lv = [x for x in lv if tuple(x) != ("c", "! comment between conditional lines")]
+                lv = [x for x in lv if tuple(x) not in (("c", "! comment between conditional lines"), ("c", "! trailing note"))]
                 R[name]["leaves"] = lv
             obs_ev(name, "leaves", repr(lv) if lv is not None else None)
         if R["Pkeep"].get("leaves") is not None:
@@ -528,6 +528,8 @@ def events_for(prop, case, res, D, ctr):
                     exp.append(tuple(pst[i - 1]))
                     i += 1
             case["meta"]["exp_absent"] = exp
+            if "absent" in R and R["absent"]["o"]["res"] not in ("ok", "fse"):
+                claim("clean", "absent")            # anything but a tree or a syntax error: the unresolved INCLUDE line was not "kept"
             if "absent" in R and R["absent"]["o"]["res"] == "ok":
                 # "provided the source is valid with it in place": only claimed when the parser accepts
                 obs_ev("absent", "leaves", repr([tuple(x) for x in R["absent"]["leaves"]]))
